@@ -1,5 +1,6 @@
 pub mod ast;
 pub mod budget;
+pub mod c09;
 pub mod dlengine;
 pub mod driver;
 pub mod faults;
@@ -63,6 +64,20 @@ fn main() {
             check(&property, &tier, seed, threads, runs, &verif_dir)
         }
         "validate-models" => validate::validate(&std::env::var("REPO_DIR").unwrap_or_else(|_| "/repo".to_string())),
+        "worker" => {
+            // child side of process isolation (see driver::run_isolated)
+            let property = arg(&args, "--property").expect("--property");
+            let seed = arg(&args, "--seed").and_then(|s| s.parse::<u64>().ok()).unwrap_or(driver::DEFAULT_SEED);
+            let runs = arg(&args, "--runs").and_then(|s| s.parse::<usize>().ok()).unwrap_or(0);
+            let stride = arg(&args, "--stride").and_then(|s| s.parse::<usize>().ok()).unwrap_or(1);
+            let offset = arg(&args, "--offset").and_then(|s| s.parse::<usize>().ok()).unwrap_or(0);
+            let after = arg(&args, "--after").and_then(|s| s.parse::<i64>().ok()).unwrap_or(-1);
+            match property.as_str() {
+                "C09" => driver::worker_loop(&c09::C09Engine, seed, runs, stride, offset, after),
+                _ => {}
+            }
+            0
+        }
         "digest" => {
             // one line per run: run seed and digest of everything that happened in it
             let property = arg(&args, "--property").expect("--property");
@@ -96,7 +111,12 @@ fn main() {
         }
         "replay" => {
             let path = args.get(2).expect("replay <file>");
-            replay(path, &verif_dir)
+            replay(path, &verif_dir, true)
+        }
+        "exec-case" => {
+            // executes one case file in this very process (the supervisor watches from outside)
+            let path = args.get(2).expect("exec-case <file>");
+            replay(path, &verif_dir, false)
         }
         _ => {
             eprintln!("usage: bsim check --property <id> --tier quick|thorough [--seed n] [--runs n] [--threads n] | replay <file>");
@@ -112,6 +132,7 @@ fn digests(property: &str, seed: u64, runs: usize, threads: usize) -> Vec<(u64, 
     match property {
         "C05" => driver::digests(&dlengine::DlEngine, seed, runs, threads),
         "C10" => driver::digests(&budget::BudgetEngine, seed, runs, threads),
+        "C09" => driver::digests(&c09::C09Engine, seed, runs, threads),
         p => driver::digests(&worldengine::WorldEngine::new(p), seed, runs, threads),
     }
 }
@@ -137,6 +158,7 @@ fn check(property: &str, tier: &str, seed: u64, threads: usize, runs: Option<usi
         }
         "C05" => driver::run_check(&dlengine::DlEngine, &mk(20000, 2_000_000)).exit_code,
         "C10" => driver::run_check(&budget::BudgetEngine, &mk(4000, 400_000)).exit_code,
+        "C09" => driver::run_check(&c09::C09Engine, &mk(3000, 300_000)).exit_code,
         other => {
             eprintln!("HARNESS: no check for property {other}");
             2
@@ -144,7 +166,7 @@ fn check(property: &str, tier: &str, seed: u64, threads: usize, runs: Option<usi
     }
 }
 
-fn replay(path: &str, verif_dir: &str) -> i32 {
+fn replay(path: &str, verif_dir: &str, isolated: bool) -> i32 {
     let text = match std::fs::read_to_string(path) {
         Ok(t) => t,
         Err(e) => {
@@ -164,6 +186,13 @@ fn replay(path: &str, verif_dir: &str) -> i32 {
         "world" => driver::replay(&worldengine::WorldEngine::new(&property), &doc, verif_dir),
         "datalog" => driver::replay(&dlengine::DlEngine, &doc, verif_dir),
         "budget" => driver::replay(&budget::BudgetEngine, &doc, verif_dir),
+        "untrusted" => {
+            if isolated {
+                driver::replay_isolated(&c09::C09Engine, &doc, verif_dir)
+            } else {
+                driver::replay(&c09::C09Engine, &doc, verif_dir)
+            }
+        }
         other => {
             eprintln!("HARNESS: unknown engine {other}");
             2
